@@ -5,6 +5,8 @@ CONSTANTS
   Wait = TRUE
   StopWakes = TRUE
   JoinAll = TRUE
+  Faults = FALSE
+  RunFinally = TRUE
 INIT Init
 NEXT CNext
 INVARIANT InOrderOnce
